@@ -10,8 +10,9 @@ EXPLANATION = ('memory safety and write-time pattern contracts of the unchecked 
                'nonzeros_for_rows/columns, kron_partial, compute_sparsity_ij, banded patterns) is bounded against the dense Kronecker definition.')
 ASSUMPTIONS = ['level count is a finite parameter: ml_nonzero_nd L in 1..4, index maps L in 1..3 (each instance proved for all values)',
                'per-level size bounds in the requires clauses exclude 64-bit overflow (block sizes <= 2^12..2^30 as stated per contract)',
-               'ml_nonzero_*: the pattern clause is a write-time contract (value and slot of every store) plus monotone idx; the final-array '
-               'quantified form is not discharged',
+               'ml_nonzero_*: the pattern clause is a write-time contract (value and slot of every store) plus monotone idx; for the 2- and 3-level '
+               'kernels also completeness (idx = number of qualifying index tuples lexicographically before the current one, a count defined by '
+               'its recurrences: no qualifying entry is skipped, also with lower_tri); the final-array quantified form is not discharged',
                'ml_nonzero_nd requires every level to list at least one nonzero (the code reads bidx[k][0] unconditionally)']
 
 
